@@ -540,13 +540,36 @@ Definition msg_tuple (with_next : bool) (m : msg) : list Z :=
    if with_next then m_next m else 0; Z.of_N (m_body m); Z.of_N (m_hdr m); Z.of_N (m_trace m); Z.of_N (m_reason m);
    match m_lease m with Some l => Z.of_N l + 1 | None => 0 end; m_until m].
 
-(** the rows that differ between two states: count, then 13 numbers per changed row (state code 0 = deleted) *)
+(** the rows that differ between two states: count, then 13 numbers per changed row (state code 0 = deleted).
+    The operator mutations keep the order of the stored rows and never add one, so one walk suffices. *)
+Fixpoint diff_walk (with_next : bool) (before after : list msg) : list (list Z) :=
+  match before with
+  | [] => []
+  | m :: tl =>
+      let gone := [Z.of_N (m_id m); 0; 0; 0; 0; 0; 0; 0; 0; 0; 0; 0; 0] in
+      match after with
+      | m' :: tl' =>
+          if N.eqb (m_id m) (m_id m')
+          then (if msg_eqb m' m then [] else [msg_tuple with_next m']) ++ diff_walk with_next tl tl'
+          else gone :: diff_walk with_next tl after
+      | [] => gone :: diff_walk with_next tl []
+      end
+  end.
+
+Fixpoint zip_add (a b : list Z) : list Z :=
+  match a, b with
+  | x :: ta, y :: tb => (x + y) :: zip_add ta tb
+  | _, _ => []
+  end.
+
+(** column sums of the changed rows plus sum(id * state code): a cheap summary for very large changes *)
+Definition sum_rows (ch : list (list Z)) : list Z :=
+  fold_left (fun acc r => zip_add acc (r ++ [nth 0 r 0 * nth 3 r 0])) ch [0; 0; 0; 0; 0; 0; 0; 0; 0; 0; 0; 0; 0; 0].
+
 Definition diff_obs (with_next : bool) (before after : list msg) : list Z :=
-  let ch := flat_map (fun m => match find_id (m_id m) after with
-                               | Some m' => if msg_eqb m' m then [] else [msg_tuple with_next m']
-                               | None => [[Z.of_N (m_id m); 0; 0; 0; 0; 0; 0; 0; 0; 0; 0; 0; 0]]
-                               end) before in
-  Z.of_nat (length ch) :: concat ch.
+  let ch := diff_walk with_next before after in
+  if Nat.leb (length ch) 64 then Z.of_nat (length ch) :: concat ch
+  else (- Z.of_nat (length ch)) :: sum_rows ch.
 
 Definition state_of (l : list msg) : state := mkState l [] None 0 [].
 
